@@ -135,6 +135,9 @@ def generate(prop, rng):
                 used_as_iter=rng.random() < 0.4,
                 used_strip_dir=rng.random() < 0.25,
             )
+            if prop == "C06" and rng.random() < 0.2:
+                # the n-th removal fails (object owned by somebody else in a shared cache / I/O error)
+                op["rm_fault"] = {"nth": rng.randint(1, 4), "exc": rng.choice(["EACCES", "EACCES", "EIO"])}
         elif kind == "checkout":
             cands = [s for s in md5_stores if s != "R" and staged.get(s)]
             if not cands:
@@ -712,12 +715,17 @@ def op_gc(h, op, n):
         return None
     if op.get("read_only"):
         odb.read_only = True
+    rm_fired0 = ctx.seam.fired.get("gc_remove", 0)
+    if op.get("rm_fault") and ctx.prop == "C06":
+        ctx.seam.faults = [{"at": ("unlink", "remove", "r_rm"), "match": None, "nth": op["rm_fault"]["nth"],
+                            "exc": op["rm_fault"]["exc"], "name": "gc_remove", "count": 1}]
     try:
         try:
             used_arg = (u for u in used) if op.get("used_as_iter") else used  # any Iterable is allowed
             ret = gc(odb, used_arg, cache_odb=expand_src, shallow=op["shallow"], dry=op["dry"])
         finally:
             odb.read_only = False
+            ctx.seam.faults = []
     except ObjectDBPermissionError:
         if not op.get("read_only"):
             ctx.violate("gc-refused", "not-read-only", f"op{n}")
@@ -727,6 +735,15 @@ def op_gc(h, op, n):
     except Exception as exc:  # noqa: BLE001
         if ctx.prop != "C06":
             return None  # gc's own behaviour is C06's subject
+        if ctx.seam.fired.get("gc_remove", 0) > rm_fired0 and isinstance(exc, OSError):
+            # a removal failed and gc says so: the store is partly collected, which is fine as long
+            # as nothing that is in use went away (a run that RETURNS is still held to the exact result)
+            lost = sorted(o for o in S & U if o not in set(h.listing(s)[0]))
+            if lost:
+                ctx.violate("gc-result", "removed-used:after-failed-removal", f"op{n}: lost used {[model.short(o) for o in lost]}")
+            h.complete.get(s, {}).clear()
+            ctx.probe("gc_reported_failed_removal")
+            return {"nt_c06": True}
         has_dir = any(u.value.endswith(".dir") for u in used if u.name == algo)
         disc = f"{type(exc).__name__}:" + ("expand-used-dir" if (has_dir and not op["shallow"]) else "other")
         ctx.violate("gc-raised", disc, f"op{n} {op}: {exc!r}")
